@@ -134,3 +134,63 @@ CLAIMED = {
               "every position of random layouts through Step(), Inspection(), Layout.read, Metadata.load, Envelope.get_payload.",
               "ASCII lower-casing in the model vs str.lower() (argument in DESIGN C17)."),
 }
+
+
+# ---------------------------------------------------------------------------------------------------------------
+# Added as the model and the correspondence grew (kept apart from the first texts above so that both stay readable).
+ADDENDA = {
+    "C01": "Added: objects in the verifier's memory (wrapped / loaded and then edited without re-wrapping): the outcome must be "
+           "that of verifying what the object serialises to.",
+    "C03": "Added: for the modelled matcher, Glob.matchToks_iff (the backtracking matcher decides a declarative relation), "
+           "fnmatch_star (* matches every path), fnmatch_literal, fnmatch_question.",
+    "C04": "Added: completeness as one theorem, honest_chain_verifies / honestCheck_sound (an honestly performed chain of "
+           "single-functionary steps verifies: any length, either format, keys with subkeys, any inspections); the round trips now "
+           "draw recording options (exclude patterns incl. root-anchored ones, one / two stripped prefixes, base path), gpg keys, "
+           "no-command runs, same-size same-mtime changes and Unicode normalisation-form renames; every link is compared with the "
+           "Lean inTotoRun; the theorem's hypotheses are evaluated by the driver on the files in-toto wrote.",
+    "C09": "Added: canon_injective (canonical JSON is injective up to the order of object members, any nesting; via the uniquely "
+           "decodable unsorted renderer enc and canon = enc o norm), canon_obj_members_perm, pae_injective, "
+           "C09_content_edit_detected / C09_envelope_edit_detected; sign_keyids_mem / sign_out_link (in-toto-sign: signature list "
+           "and output file, driver op sign_ops); histories of verify / impostor key / sign / append (duplicate signers) / corrupt / "
+           "edit / reload on one in-memory object per format; DSSE bytes independent of member order.",
+    "C11": "Added: honest_chain_verifies / honestCheck_sound / gate_complete (see C04); every link written by in_toto_run is "
+           "compared with the Lean inTotoRun on the before / after snapshots under the history's recording options; on every honest "
+           "history the hypotheses of honest_chain_verifies must hold and its prediction must equal the implementation's result.",
+    "C12": "Added: C12_stop_extras (library-only command / byproducts / environment arguments), C12_stop_glob_spec (gpg "
+           "key-argument forms: exactly one preliminary record of the step, same key), C12_noninterference (interleaved calls for "
+           "other step names / keys do not change what a pair's calls produce); final link content and failure classes vs the Lean "
+           "recordStop / recordStopGlob; random interleavings vs runDirOps; a real RLIMIT_FSIZE fault family; duplicated "
+           "preliminary files.",
+    "C13": "Added: utf8Decoder_chunkIndependent and C13_exact_utf8 (the chunking-independence hypothesis is discharged for the "
+           "model's strict UTF-8 decoder); a family of real child processes (real capture files, polling, clock, signals).",
+    "C14": "Added: the in-memory histories on a traditional and a DSSE twin; scenarios of the C16 generator (placeholders and "
+           "parameter sets) under the three format assignments; library-only arguments of in_toto_record_stop in both formats.",
+    "C15": "Added: verification shapes with zero / two inspections and a delegated step; left-over files in the work / base "
+           "directories are part of the state compared.",
+    "C18": "Added: the front ends' own argument checks are modelled (RunArgs / RecordArgs / VerifyArgs / SignArgs; "
+           "C18_run_zero_iff, C18_run_zero_signer, C18_run_empty_key, C18_record_zero_iff, C18_verify_zero_iff, C18_verify_no_keys, "
+           "C18_sign_zero_iff; driver op cli_main fed with what in-toto's own create_parser() leaves in the namespace); "
+           "sign_verify_success_iff / verify_keys_complete (several keys in one invocation: every key counts); empty key "
+           "arguments, mixed key options, verification with several keys in any order.",
+    "C19": "Added: path lists with look-alike siblings and nested extras; a warm-up comparison followed by in-place edits that keep "
+           "size and time stamps.",
+    "C20": "Added: siblings whose names differ from a directory's by a character below '/', anchored patterns and pattern-matching "
+           "locations of the directory, OSTree refs recorded again after the object was rewritten / from a second repository.",
+}
+NOTE_REPLACEMENTS = {
+    "C09": ("Injectivity of the canonical encoding for arbitrarily nested values: see DESIGN section 6 (partial).",
+            "Injectivity is proved at JSON level; that the typed readers (link, layout) are injective up to member order is by the "
+            "load correspondence (DESIGN 10.5)."),
+    "C11": ("Honest-chain acceptance through the whole pipeline is established by correspondence, not by a single theorem.",
+            "Honest-chain acceptance is a theorem for single-functionary steps; thresholds above 1 and delegated steps stay with the "
+            "stage theorems and the correspondence."),
+    "C13": ("The incremental UTF-8 decoder's chunking independence is a hypothesis (compared with CPython on every schedule); kernel "
+            "scheduling and real timing are not modelled.",
+            "That the model's UTF-8 decoder is CPython's is by correspondence (every schedule); kernel scheduling and real timing are "
+            "not modelled (real child processes are run as well)."),
+}
+for _k, _t in ADDENDA.items():
+    CLAIMED[_k]["text"] = CLAIMED[_k]["text"] + " " + _t
+for _k, (_old, _new) in NOTE_REPLACEMENTS.items():
+    if _old in CLAIMED[_k]["note"]:
+        CLAIMED[_k]["note"] = CLAIMED[_k]["note"].replace(_old, _new)
